@@ -8,6 +8,12 @@ open Vy PyAst
 @[simp] theorem R_err_bind {α β} (e : SErr) (f : α → R β) : ((Except.error e : R α) >>= f) = .error e := rfl
 @[simp] theorem R_pure {α} (a : α) : (pure a : R α) = .ok a := rfl
 
+@[simp] theorem ex_ok_bind {ε α β} (a : α) (f : α → Except ε β) : ((Except.ok a : Except ε α) >>= f) = f a := rfl
+@[simp] theorem ex_err_bind {ε α β} (e : ε) (f : α → Except ε β) : ((Except.error e : Except ε α) >>= f) = .error e := rfl
+@[simp] theorem ex_map_ok {ε α β} (a : α) (f : α → β) : (f <$> (Except.ok a : Except ε α)) = .ok (f a) := rfl
+@[simp] theorem ex_map_err {ε α β} (e : ε) (f : α → β) : (f <$> (Except.error e : Except ε α)) = .error e := rfl
+@[simp] theorem ex_pure {ε α} (a : α) : (pure a : Except ε α) = .ok a := rfl
+
 theorem lookupP_setP_eq (k : PKey) (v : Val) (l : List (PKey × Val)) : lookupP k (setP k v l) = some v := by
   induction l with
   | nil => simp [setP, lookupP]
